@@ -232,7 +232,8 @@ def global_best(args):
             else:
                 L.features['crowding_distance'] = ctx.real('lead%d_cd' % j, 0, None)
             members.append(L)
-        # invariant of the pre-state: at most N leaders, mutually non-dominated, distinct vectors
+        # invariant of the pre-state: mutually non-dominated leaders with distinct vectors; at most N of them unless the
+        # configuration models a population size lowered since the last generation
         for a in members:
             for b in members:
                 if a is not b:
@@ -282,9 +283,12 @@ def configs(tier):
         out.append({'name': 'gbest-%s-shared-position-vectors' % kind, 'task': 'global_best',
                     'args': {'kind': kind, 'nlead': 2, 'nswarm': 2, 'N': 3, 'm': 2, 'shared_vectors': True},
                     'weight': 10 ** 4, 'split': 48, 'engine': {'validate': 20}})
+    # pre-states with MORE leaders than the population size: the size option was lowered since the last generation (a
+    # second run of the same algorithm object with a smaller population); the very next update must restore the bound
+    shrunk = [(2, 1, 1, 2), (2, 2, 1, 2)] + ([(3, 1, 2, 2), (3, 2, 1, 2)] if tier == 'thorough' else [])
     for kind in kinds:
-        for nlead, nsw, N, m in gb:
-            if nlead > N:
+        for nlead, nsw, N, m in gb + shrunk:
+            if nlead > N and (nlead, nsw, N, m) not in shrunk:
                 continue
             out.append({'name': 'gbest-%s-l%d-s%d-N%d-m%d' % (kind, nlead, nsw, N, m), 'task': 'global_best',
                         'args': {'kind': kind, 'nlead': nlead, 'nswarm': nsw, 'N': N, 'm': m},
